@@ -472,8 +472,25 @@ def check_spam(case, ctx: Ctx):
 
 
 # ------------------------------------------------------------------ V2 vs legacy
+def profile_mod(tier):
+    """Channels with a finite modulation bandwidth: with `with_modulation` the emulated duration
+    includes the fall time of the last pulse, and relative evaluation times refer to it."""
+    ck = {"bandwidth": [4, 8, 20], "simple_timing": True, "eom": False}
+    p = profile(tier)
+    return dict(p, max_ops=7, weights=dict(p["weights"], slm=0, add_dmm=0, detmap=0),
+                device=st.one_of(
+                    gen.device_specs(n_channels=(1, 2), allow_builtin=False, chan_kw=ck, allow_dmm=False),
+                    gen.device_specs(mode="xy", n_channels=(1, 1), allow_builtin=False, chan_kw=ck)))
+
+
 @st.composite
-def v2_cases(draw, tier):
+def v2_cases(draw, tier, modulation=False):
+    if modulation:
+        prog = draw(gen.programs(profile_mod(tier)))
+        k = draw(st.integers(2, 4))
+        fr = sorted({round(draw(st.floats(0.0, 1.0)), 3) for _ in range(k)})
+        return dict(prog=prog, eval=draw(st.sampled_from(["list", "list", "single", "default"])), fracs=fr,
+                    sampling_rate=1.0, modulation=True)
     prog = draw(gen.programs(profile(tier)))
     ev = draw(st.sampled_from(["default", "Full", "list", "list", "single"]))
     k = draw(st.integers(2, 4))
@@ -491,8 +508,22 @@ def check_v2(case, ctx: Ctx):
         ctx.label("not_emulable")
         return
     T = seq.get_duration()
+    mod = bool(case.get("modulation"))
+    mkw = {}
+    if mod:
+        mkw = dict(with_modulation=True)
+        try:
+            QutipEmulator.from_sequence(seq, with_modulation=True)
+        except Exception:  # noqa: BLE001 - combination the emulator does not support
+            ctx.label("modulation_not_supported_here")
+            return
+        # the emulated duration includes the fall time of the last pulses
+        T_plain, T = T, seq.get_duration(include_fall_time=True)
+        ctx.label("longer_with_modulation" if T > T_plain else "same_duration_with_modulation")
+        if T > 4500:
+            return
     sr = case["sampling_rate"] if case["sampling_rate"] * T >= 5 else 1.0
-    kw = dict(observables=[StateResult()], sampling_rate=sr)
+    kw = dict(observables=[StateResult()], sampling_rate=sr, **mkw)
     ev = case["eval"]
     if ev == "Full":
         kw["default_evaluation_times"] = "Full"
@@ -500,7 +531,10 @@ def check_v2(case, ctx: Ctx):
         kw["default_evaluation_times"] = case["fracs"]
     elif ev == "single":
         kw["default_evaluation_times"] = case["fracs"][:1]
-    ctx.nontrivial(ev == "list" and len(case["fracs"]) >= 2 or (1.0 * T * 1e-3 != T / 1000))
+    if mod:
+        ctx.nontrivial(T > T_plain and ev in ("list", "single"))
+    else:
+        ctx.nontrivial(ev == "list" and len(case["fracs"]) >= 2 or (1.0 * T * 1e-3 != T / 1000))
     ctx.label(f"eval={ev}", "inexact_T" if 1.0 * T * 1e-3 != T / 1000 else "exact_T")
     cfg = ctx.must(lambda: QutipConfig(**kw), C, "QutipConfig")
     try:
@@ -513,7 +547,13 @@ def check_v2(case, ctx: Ctx):
                  f"QutipBackendV2 failed for T={T} ns, evaluation times {kw.get('default_evaluation_times', 'default')}: "
                  f"{type(e).__name__}: {str(e)[:200]}", cont=True)
         return
-    times = res.get_result_times("state")
+    try:
+        times = res.get_result_times("state")
+    except ValueError:
+        ctx.fail(C, "no_state_stored",
+                 f"T={T} ns, evaluation times {kw.get('default_evaluation_times', 'default')}: the run stored "
+                 f"no state at all (tags {res.get_result_tags()})")
+        return
     if times != sorted(times):
         ctx.fail(C, "times_not_ascending", f"{times}")
     want = None
@@ -530,7 +570,7 @@ def check_v2(case, ctx: Ctx):
     # legacy emulator at the same (absolute) times
     abs_t = [t * T / 1000 for t in times]
     sim = ctx.must(lambda: QutipEmulator.from_sequence(
-        seq, sampling_rate=sr, evaluation_times=[min(x, T / 1000) for x in abs_t]), C, "legacy emulator")
+        seq, sampling_rate=sr, evaluation_times=[min(x, T / 1000) for x in abs_t], **mkw), C, "legacy emulator")
     leg = ctx.must(lambda: sim.run(), C, "legacy run")
     for t, st_ in zip(times, res.state):
         a = st_.to_qobj().full().reshape(-1)
@@ -547,7 +587,7 @@ def check_v2(case, ctx: Ctx):
     # solver noise (measured 3e-9; 1e-6 allowed); a backend evaluating at a shifted time differs by ~Omega*dt/2
     if want is not None:
         req_abs = [f * T / 1000 for f in want]
-        sim2 = ctx.must(lambda: QutipEmulator.from_sequence(seq, sampling_rate=sr, evaluation_times=req_abs),
+        sim2 = ctx.must(lambda: QutipEmulator.from_sequence(seq, sampling_rate=sr, evaluation_times=req_abs, **mkw),
                         C, "legacy emulator at requested times")
         leg2 = ctx.must(lambda: sim2.run(), C, "legacy run at requested times")
         for f, ta in zip(want, req_abs):
@@ -619,6 +659,10 @@ CLAUSES = [
            doc="state-preparation + detection errors through the legacy emulator and the V2 backend"),
     Clause("v2", check_v2, gen=lambda t: v2_cases(t),
            budget={"quick": (16, 6), "thorough": (16, 250)}),
+    Clause("v2_modulation", check_v2, gen=lambda t: v2_cases(t, modulation=True),
+           budget={"quick": (16, 8), "thorough": (16, 120)},
+           doc="V2 backend with output modulation: relative evaluation times refer to the duration "
+               "including the fall time; states agree with the legacy emulator at those times"),
     Clause("v2_durations", check_durations, enum=enum_durations,
            budget={"quick": (12, 0), "thorough": (12, 0)}, exhaustive=True,
            doc="every duration 4..3000 ns on the V2 backend with default evaluation times"),
